@@ -62,9 +62,10 @@ CHECKS_K1 = {
         "note": _K1_NOTE + _HO_NOTE + " A-time / A-time-step as in C16; absolute times are tagged integers. A-exc: an exception object is not None (its truth "
                 "value is arbitrary - the obligation that found defect 1fc92af). The induction schema of the snoc lemmas is instantiated by "
                 "the generator. delay_with_mapper with a subscription-delay observable: the handlers of the subscription delay are under contract "
-                "(the source is subscribed - once - when it first emits or completes, and the delay is released); that a delay firing from "
-                "INSIDE subscribe keeps the source subscribed afterwards was found natively and repaired (last C15 fix), the harness does not "
-                "run handlers inside the subscribe call-out. Thorough tier: must-fail mutants and timedrun.py (TestScheduler grid against references written from the "
+                "(the source is subscribed - once - when it first emits or completes, and the delay is released); for every source of a multi-source / "
+                "late-subscribing operator the scenario 'it notifies from INSIDE its subscribe call' is run too: what that notification made "
+                "the operator subscribe must still be subscribed when subscribe returns (the obligation that shows the defect of the last "
+                "C15 fix on the pre-fix tree). Thorough tier: must-fail mutants and timedrun.py (TestScheduler grid against references written from the "
                 "property text) as cross-check of delay / delay_subscription / timestamp / time_interval; numeric virtual clock only (the "
                 "datetime clock of HistoricalScheduler is the same code under A-time).",
         "technique": "K1 handler refinement in virtual time with timer / handler families, recursive sequence functions with ground unfolding, loop invariants, K8 snoc lemmas by induction, SMT",
